@@ -464,10 +464,18 @@ def materialise(prog):
             if u.inj["pkg"] == pkg:
                 s = u.sets[-1]
                 inj = u.inj
-                params = []
-                for n, td in enumerate(inj["args"]):
-                    nm = (inj["argnames"][n] if inj["argnames"] else "arg%d" % n)
-                    params.append(("%s %s" % (nm, T(u, td, inj_used))).strip())
+                ptypes = [T(u, td, inj_used) for td in inj["args"]]
+                build_args = set_args(u, s, pkg, lambda td: T(u, td, inj_used), inj_used)
+                names = list(inj["argnames"]) if inj["argnames"] else ["arg%d" % n for n in range(len(ptypes))]
+                if any(x.startswith("@") for x in names):
+                    from . import e2e_names
+                    names = e2e_names.resolve_param_names(prog, u, {prog.qual(q) for q in inj_used} | {"wire"})
+                # the user's own template must compile: a parameter may not shadow a package the
+                # template mentions, nor the builtin `new` it calls
+                banned = {prog.qual(q) for q in inj_used} | {"wire", "new", "panic"}
+                names = [nm if nm not in banned else "q%d" % n for n, nm in enumerate(names)]
+                inj["argnames_resolved"] = names
+                params = [("%s %s" % (nm, ty)).strip() for nm, ty in zip(names, ptypes)]
                 res = [T(u, inj["out"], inj_used)]
                 if inj["cleanup"]:
                     res.append("func()")
@@ -477,7 +485,7 @@ def materialise(prog):
                 k, i = inj["out"]
                 zero = {"v": T(u, ("v", i), inj_used) + "{}" if k == "v" else "", "p": "nil", "i": "nil", "s": "nil"}[k]
                 rets = [zero] + (["nil"] if inj["cleanup"] else []) + (["nil"] if inj["err"] else [])
-                call = "wire.Build(%s)" % ", ".join(set_args(u, s, pkg, lambda td: T(u, td, inj_used), inj_used))
+                call = "wire.Build(%s)" % ", ".join(build_args)
                 doc = "// %s builds %s.\n" % (inj["name"], res[0]) if inj["form"] != "noreturn" else ""
                 if inj["form"] == "panic":
                     fbody = "\tpanic(%s)" % call
